@@ -74,7 +74,7 @@ prop("C03",
      cosim_ignore="order,stamp,value",
      smoke=True)
 prop("C06",
-     ["C06_cancel_pending_lock", "C06_cancel_stream_entry", "C06_cancel_restores_state", "C06_no_residue", "C06_witness"],
+     ["C06_cancel_pending_lock", "C06_cancel_stream_entry", "C06_cancel_restores_state", "C06_no_residue", "C06_cancelled_call_is_invisible_to_map_and_locks", "C06_witness"],
      ["C04.", "C12.", "C13.", "C06."],
      [fam("dfs-cancel","H",6000), fam("dfs-cancel","L",6000), fam("dfs-stream","L",4000), fam("dfs-stream","H",4000), fam("nolimit","H",1500), fam("stream","L",1500), fam("evict","L",800), fam("mix","L",800), fam("fine-mix","L",1500), fam("fine-stream","H",1500), fam("wide","L",600)],
      [fam("dfs-cancel","H",100000), fam("dfs-cancel","L",100000), fam("dfs-stream","L",100000), fam("dfs-stream","H",100000), fam("nolimit","H",40000), fam("nolimit","L",40000), fam("stream","L",40000), fam("stream","H",40000), fam("evict","L",20000), fam("mix","L",20000), fam("pool","P",20000), fam("fine-mix","L",40000), fam("fine-stream","H",40000), fam("fine-nolimit","L",40000), fam("wide","L",20000), fam("fine-wide","H",20000)],
